@@ -30,6 +30,10 @@ def sim(name, scenario, **kw):
 
 def c12_jobs(tier):
     jobs = [sim("c12-direct", "c12", require_counters=["topic_deleted_before_subscription", "stream_ended_not_found", "delete_inside_burst_over_mailbox", "delete_abandoned_by_its_client", "same_name_created_around_the_delete"])]
+    # requests that reach the subscription in the instant its actor stops: two steps of the sender on
+    # worker threads, one step on the simulated engine - stable build, 6-worker runtime, real clock
+    jobs.append(sim("c12-deletion-instant-mt", "c12m", engine_arg="mt", shards=8, episodes=48 if tier == "quick" else 192,
+                    require_counters=["rounds_completed", "parked_pulls_released_by_deletion", "streams_ended_by_the_deletion"], require_nontrivial=False))
     if tier == "thorough":
         jobs.append(sim("c12-h2", "c12", transport="h2"))
     return jobs
@@ -42,6 +46,9 @@ def c07_jobs(tier):
     jobs = [sim("c07-direct", "c07", require_counters=["mailbox_full_observations", "empty_wakeups_mid_wait"]),
             # the manager -> registry lock nesting needs real threads: stable build, multi-thread runtime, real clock
             sim("c07-pushlock-mt", "c07p", engine_arg="mt", shards=8, require_counters=["calls.CreatePushOk", "registered_ok", "hook_points_during_client_phase"])]
+    # every request issued in the instant its subscription goes away is answered (worker threads)
+    jobs.append(sim("c07-deletion-instant-mt", "c12m", engine_arg="mt", shards=8, episodes=48 if tier == "quick" else 192,
+                    require_counters=["rounds_completed"], require_nontrivial=False))
     if tier == "thorough":
         jobs.append(sim("c07-h2", "c07", transport="h2", require_counters=["mailbox_full_observations"]))
         jobs.append(asan_mt("c07-asan-mt", "c07", crash_property="C07"))
